@@ -19,6 +19,7 @@ RULE = (
     "two parallel chains deeper than the interpreter's recursion limit for the three breadth-first iterators. Non-trivial = the start node's subtree has >= 4 nodes and height >= 2; enumerated cases are "
     "distinct by construction, generated ones are de-duplicated by a 64-bit hash of the case."
     ' Also: two objects of each iterator class alternately and nested; python -O/-OO child interpreters; raised recursion limit.'
+    ' Rounds 11-14: deep bushy trees beyond the recursion limit (duplicate-free prefix), iterators with few frames of stack left (complete or RecursionError), node-owned children lists.'
 )
 ASSUMPTIONS = [
     "the traversal of a subtree is defined by .children alone: one node class (ShadowMRO) inherits unrelated class attributes named is_leaf/depth/height/size/... from a base listed before NodeMixin, and is iterated like any other",
